@@ -60,4 +60,61 @@ theorem ticker_protocol :
     (flowOf "progressMeter.Inc").map (·.2.1) = ["atomic.AddInt64(&p.count, 1)"] := by
   refine ⟨?_, ?_, ?_⟩ <;> decide +kernel
 
+/-! ## the progress meter's lock discipline, REGENERATED (meter/meter.go)
+
+`Gen.Cmds.meterLockTable` classifies every statement of `progressMeter`'s methods: lock / unlock /
+deferred unlock of `p.lock`, `atomic` (touches `p.count` through sync/atomic only), `access` (mentions any
+other field of `p`), `return`, `go`. The ticker goroutine's statements carry the path component "go". -/
+
+abbrev LEv := String × List String × List (String × String)
+def lInGo (e : LEv) : Bool := e.2.2.any (fun c => c.2 == "go")
+
+def lPrefix : List (String × String) → List (String × String) → Bool
+  | [], _ => true
+  | a :: as, b :: bs => a == b && lPrefix as bs
+  | _ :: _, [] => false
+
+/-- the statement at position `a` of one goroutine's statement list runs with `p.lock` held: some
+    earlier `Lock()` dominates it (its branch path is a prefix) and no `Unlock()` that dominates it lies between -/
+def protectedAt (evs : List LEv) (a : Nat) : Bool :=
+  match evs[a]? with
+  | none => false
+  | some ea =>
+    (List.range a).any (fun l =>
+      match evs[l]? with
+      | some el => el.1 == "lock" && lPrefix el.2.2 ea.2.2 &&
+          (List.range a).all (fun u => decide (u ≤ l) ||
+            (match evs[u]? with
+             | some eu => !(eu.1 == "unlock" && lPrefix eu.2.2 ea.2.2)
+             | none => true))
+      | none => false)
+
+/-- an explicit `Unlock()` is the last statement of its goroutine's list, or the branch it sits in returns at once -/
+def unlockShape (evs : List LEv) : Bool :=
+  (List.range evs.length).all (fun u =>
+    match evs[u]? with
+    | some eu => eu.1 != "unlock" ||
+        (match evs[u + 1]? with
+         | none => true
+         | some nx => nx.1 == "return" && nx.2.2 == eu.2.2)
+    | none => true)
+
+def disciplined (evs : List LEv) : Bool :=
+  unlockShape evs &&
+  (List.range evs.length).all (fun a =>
+    match evs[a]? with
+    | some ea => (ea.1 != "access" || protectedAt evs a) && !(ea.2.1.contains "count!")
+    | none => true)
+
+/-- **no unsynchronised access to the meter's shared state**: in every method, and separately in the
+    ticker goroutine, each statement that touches a field of `p` other than through sync/atomic runs
+    with `p.lock` held, and `p.count` is touched through sync/atomic only (seeded change C18u — the
+    ticker's `Fprintf` moved behind its `Unlock()` — breaks it) -/
+theorem meter_lock_discipline :
+    Gen.Cmds.meterLockTable.all (fun f =>
+      disciplined (f.2.filter (fun e => !lInGo e)) && disciplined (f.2.filter lInGo)) = true ∧
+    Gen.Cmds.meterLockTable.map (·.1) = ["Start", "Inc", "Add", "Done"] := by
+  constructor <;> decide +kernel
+
+
 end GitSizer.Pins.Meter
